@@ -111,6 +111,8 @@ def cases(draw, tier):
                 extra.append({"name": nm, "group": grp, "scope": ["trans", [k]], "attach": att, "prov": prov, "async": async_mode == "all",
                               "yields": 0, "ret": draw(st.sampled_from(RETS)), "sends": {}})
     spec["cbs"] += extra
+    # listeners / models that are falsy objects (an empty recorder with __len__) contribute their results like any other
+    spec["falsy_providers"] = [p for p in provs if p != "machine" and draw(st.integers(0, 3)) == 0]
     is_async = gen.is_async_spec(spec)
     cfg = {"rtc": True if is_async else draw(st.sampled_from([True, True, False])), "allow": draw(st.booleans()),
            "driver": draw(st.sampled_from(["sync", "loop"])), "activate": True}
